@@ -494,6 +494,7 @@ def check(ctx, R):
         R, c, "C20.m", _sh.WEAK_DELEGATIONS,
         "R-PROV dereferencing a text quotation as a string: WeakRef<TextRef>::get_string renders with LinkSource::to_string and "
         "WeakRef<XmlTextRef>::get_string with to_xml_string, each over the link's own source"), ctx)
+    R.run("C20.q", rule_q, ctx)
     R.run("C20.a", rule_a, ctx)
     R.run("C20.b", rule_b, ctx)
     R.run("C20.c", rule_c, ctx)
@@ -508,3 +509,59 @@ def check(ctx, R):
     from . import c02 as _c02
     R.run("C20.h", lambda R, c: _c02.rule_g(R, c, "C20.h"), ctx)
     return {}
+
+
+FFI_QUOTE_DELEGATIONS = [
+    ("yffi::ytext_quote", r"Quotable::quote$",
+     {2: "ExplicitRange{Option::cloned(<*mut T>::as_ref(start_index)), Option::cloned(<*mut T>::as_ref(end_index)), start_exclusive, end_exclusive}"}, None),
+    ("yffi::yarray_quote", r"Quotable::quote$",
+     {2: "ExplicitRange{Option::cloned(<*mut T>::as_ref(start_index)), Option::cloned(<*mut T>::as_ref(end_index)), start_exclusive, end_exclusive}"}, None),
+]
+
+
+def rule_q(R, ctx, rid="C20.q"):
+    """The C wrappers of quote hand the caller's boundaries on as given, and ExplicitRange reports them as given."""
+    from . import shared as _sh
+    R.rule(rid, "R-PROV ytext_quote / yarray_quote build the range they quote from the caller's own four parameters — start index, end "
+                "index, and the two exclusivity flags, each in its own slot, values rebuilt from MIR and rendered canonically — and "
+                "ExplicitRange::start_bound / end_bound answer Unbounded exactly for an absent index, Included for flag 0 and Excluded "
+                "otherwise, over the index of the same side. An excluded start rewritten as the next included index selects the same "
+                "elements at quote time but anchors the quotation to the other neighbour, so later inserts at the boundary fall outside")
+    Y = ctx.yffi
+    _sh._delegations(R, Y, rid, FFI_QUOTE_DELEGATIONS, 2)
+    n = 0
+    for side in ("start", "end"):
+        fn = Y.fn("<yffi::ExplicitRange as std::ops::RangeBounds<u32>>::%s_bound" % side)
+        v = FnView(fn)
+        seen = set()
+        for bb, i, st in fn.stmts():
+            rv = st.get("rv") or {}
+            agg = rv.get("agg") if isinstance(rv, dict) else None
+            if st["dst"] != 0 or not isinstance(agg, dict) or agg.get("adt") != "std::ops::Bound":
+                continue
+            var = agg["variant"]
+            seen.add(var)
+            n += 1
+            gs = [(sshow(simp_deep(l.term), 6), l.polarity) for l in v.guards(bb)]
+            idx, flag = "self.%s_index" % side, "self.%s_exclusive" % side
+            want = {"Unbounded": [(idx, "None")],
+                    "Included": [(idx, "Some"), (flag, ("eq", 0))],
+                    "Excluded": [(idx, "Some"), (flag, "ne0")]}.get(var, [("?", "?")])
+            bad = []
+            for t, pol in want:
+                if pol == "ne0":
+                    ok = any(g == t and isinstance(p, tuple) and p[0] == "ne" and tuple(p[1]) == (0,) for g, p in gs)
+                else:
+                    ok = any(g == t and (p == pol or (isinstance(p, tuple) and isinstance(pol, tuple) and tuple(p) == tuple(pol))) for g, p in gs)
+                if not ok:
+                    bad.append("%s is not known to be %s" % (t, pol if pol != "ne0" else "non-zero"))
+            if var != "Unbounded":
+                op = sshow(simp_deep(v.terms.operand(rv["ops"][0], 10)), 8)
+                if idx not in op:
+                    bad.append("the payload is %s, not %s" % (op, idx))
+            R.ob(rid, fn, side + ":" + var, not bad, "answered under %s" % ([("%s %s" % (g, p)) for g, p in gs],) if not bad else "; ".join(bad),
+                 "%s:%s" % (fn.file if hasattr(fn, "file") else "yffi/src/lib.rs", st.get("line")))
+        for var in ("Unbounded", "Included", "Excluded"):
+            if var not in seen:
+                R.ob(rid, fn, side + ":" + var, False, "%s_bound never answers %s" % (side, var))
+    R.floor(rid, "bound answers", n, 6)
